@@ -77,7 +77,7 @@ def record(seed, nalign):
             for _ in range(4):
                 a, b = rnd.randint(-n, n), rnd.randint(-n, n)
                 ev("Slice", text, [a, b], lambda: str(al[a:b]))
-            i = rnd.randint(0, n - 1)
+            i = rnd.randint(-n, n - 1)
             ev("Index", text, [i], lambda: str(al[i]))
             ev("Rc", text, [], lambda: str(al.rc()))
             # slice of a slice / rc of a slice: the map of a derived object
@@ -164,7 +164,8 @@ def validate(run, scratch: Path):
             a, b = (v + n if v < 0 else v for v in e["args"])
             cls = "empty-interval" if a >= b else "interval"
         elif e["op"] == "Index":
-            cls = "i>=0"
+            i = e["args"][0]
+            cls = "i=-1" if i == -1 else ("i<-1" if i < 0 else "i>=0")
         else:
             cls = "-"
         key = f"Trace:{e['op']}:{cls}" + ("" if e["ok"] else ":exception=" + e["exc"].split(":")[0])
